@@ -54,6 +54,7 @@ type N struct {
 	Style   yaml.Style
 	Anchor  string
 	AliasOf *N
+	Merge   bool // KMap used as the value of a `<<` key: an inline merge source
 }
 
 func Null() *N            { return &N{K: KNull} }
@@ -181,15 +182,25 @@ func (n *N) json(b *bytes.Buffer) {
 		b.WriteByte(']')
 	case KMap:
 		b.WriteByte('{')
-		for i, k := range n.Keys {
-			if i > 0 {
-				b.WriteByte(',')
+		first := true
+		var emit func(m *N)
+		emit = func(m *N) {
+			for i, k := range m.Keys {
+				if k == "<<" && m.Vals[i].Merge {
+					emit(m.Vals[i]) // JSON has no merge keys: the merged pairs are written in place
+					continue
+				}
+				if !first {
+					b.WriteByte(',')
+				}
+				first = false
+				s, _ := json.Marshal(k)
+				b.Write(s)
+				b.WriteByte(':')
+				m.Vals[i].json(b)
 			}
-			s, _ := json.Marshal(k)
-			b.Write(s)
-			b.WriteByte(':')
-			n.Vals[i].json(b)
 		}
+		emit(n)
 		b.WriteByte('}')
 	}
 }
@@ -281,7 +292,7 @@ func (n *N) yamlNode(o YAMLOpts, anchors map[*N]*yaml.Node) *yaml.Node {
 }
 
 func (n *N) isMergeValue() bool {
-	if n.AliasOf != nil {
+	if n.AliasOf != nil || n.Merge {
 		return true
 	}
 	if n.K == KSeq {
@@ -426,6 +437,9 @@ func fromYAMLNode(y *yaml.Node, depth int) (*N, error) {
 			if err != nil {
 				return nil, err
 			}
+			if k.Tag == "!!merge" && v.K == KMap {
+				v.Merge = true // flattened by Match (the generator never makes merged and explicit keys collide)
+			}
 			n.Keys = append(n.Keys, k.Value)
 			n.Vals = append(n.Vals, v)
 		}
@@ -553,6 +567,8 @@ func match(exp, got *N, path string) string {
 			}
 		}
 	case KMap:
+		exp = flattenMerges(exp)
+		got = flattenMerges(got)
 		gotIdx := map[string]int{}
 		for i, k := range got.Keys {
 			if _, dup := gotIdx[k]; dup {
@@ -588,6 +604,32 @@ func match(exp, got *N, path string) string {
 		}
 	}
 	return ""
+}
+
+// flattenMerges returns the mapping with inline merge sources written in place.
+func flattenMerges(n *N) *N {
+	has := false
+	for i, k := range n.Keys {
+		if k == "<<" && n.Vals[i].Merge {
+			has = true
+		}
+	}
+	if !has {
+		return n
+	}
+	cp := *n
+	cp.Keys, cp.Vals = nil, nil
+	for i, k := range n.Keys {
+		if k == "<<" && n.Vals[i].Merge {
+			f := flattenMerges(n.Vals[i])
+			cp.Keys = append(cp.Keys, f.Keys...)
+			cp.Vals = append(cp.Vals, f.Vals...)
+			continue
+		}
+		cp.Keys = append(cp.Keys, k)
+		cp.Vals = append(cp.Vals, n.Vals[i])
+	}
+	return &cp
 }
 
 // Brief renders a node compactly for messages.
